@@ -290,14 +290,17 @@ def wsClose (code : Option Nat) (reason : Arg) : M ActRes := fun s =>
   if s.closed then .ok .ok s
   else if s.closing then .ok .ok s
   else
+    let tooBig : Bool := match code with | some c => decide (c ≥ 65536) | none => false
     match reason with
-    | .other => .ok .typeError s          -- AttributeError: no `.encode` (reported as TypeError-class)
+    | .other =>
+      -- the repaired code tests the code range (ValueError) before it touches `reason`;
+      -- otherwise AttributeError: no `.encode` (reported as TypeError-class)
+      if s.cfg.v.closeArgs ∧ tooBig then .ok .valueError s else .ok .typeError s
     | _ =>
       let rb : Bytes := match reason with
         | .bytes b => b
         | .str cps => encodeReplace cps
         | .other => []
-      let tooBig : Bool := match code with | some c => decide (c ≥ 65536) | none => false
       let payload := buildClosePayload code rb
       if s.cfg.v.closeArgs ∧ (tooBig ∨ payload.length > 125) then .ok .valueError s
       else if tooBig then .ok .structError s
